@@ -28,6 +28,7 @@ def run(ctx):
     malsec.hash_guards(ctx, facts, "GUARD-hash")
     fields(ctx, facts)
     tag_consts(ctx, facts)
+    key_cover(ctx, facts)
     ctx.assume("the permutation/multiset property of the shuffle is not decided (numerical)")
 
 
@@ -113,3 +114,94 @@ def tag_consts(ctx, facts):
         ok = off is not None and sizes.get(t) == off and bits_sat == off * 8 + 32
         ctx.ob("TAG-const", F.short(t, 1), ok, f"TAG_OFFSET={off}, size={sizes.get(t)}, ShareAndTag::BITS={bits_sat}" if ok else f"TAG_OFFSET={off} vs serialized size {sizes.get(t)} / ShareAndTag BITS {bits_sat}: tag is read from the wrong offset")
     ctx.floor("TAG-const", "impl MaliciousShuffleShare", n, 3)
+
+
+# ---------------------------------------------------------------------------------------------
+class NoEval(Exception):
+    pass
+
+
+def ieval(e, bits):
+    """integer evaluation of the key-count expression with `ShuffleShare::BITS := bits`"""
+    e = flow.strip_casts(e)
+    k = e[0]
+    if k == "const":
+        if isinstance(e[1], int):
+            return e[1]
+        if str(e[1]).endswith("::BITS"):
+            n = str(e[1])
+            if "Gf32Bit" in n or "gf32" in n.lower():
+                return 32
+            return bits
+        raise NoEval(str(e[1]))
+    if k == "proj":
+        return ieval(e[1], bits)
+    if k == "call":
+        fn = e[1]
+        if re.search(r"(TryFrom::try_from|TryInto::try_into|From::from|Into::into|Result::<T, E>::(unwrap|expect)|Option::<T>::(unwrap|expect))$", fn):
+            return ieval(e[2][0], bits)
+        if fn.endswith("::div_ceil"):
+            a, b = ieval(e[2][0], bits), ieval(e[2][1], bits)
+            return -(-a // b)
+        if fn.endswith("::next_multiple_of"):
+            a, b = ieval(e[2][0], bits), ieval(e[2][1], bits)
+            return -(-a // b) * b
+        if re.search(r"cmp::max$|Ord::max$", fn):
+            return max(ieval(x, bits) for x in e[2])
+        if re.search(r"cmp::min$|Ord::min$", fn):
+            return min(ieval(x, bits) for x in e[2])
+        raise NoEval(fn)
+    if k == "bin":
+        a, b = ieval(e[2], bits), ieval(e[3], bits)
+        op = e[1].replace("WithOverflow", "")
+        if op == "Add":
+            return a + b
+        if op == "Sub":
+            return a - b
+        if op == "Mul":
+            return a * b
+        if op == "Div":
+            return a // b
+        if op == "Rem":
+            return a % b
+        if op == "Shr":
+            return a >> b
+        if op == "Shl":
+            return a << b
+        raise NoEval(op)
+    raise NoEval(str(e)[:60])
+
+
+def key_cover(ctx, facts):
+    ctx.rule("KEYS-cover: the number of MAC keys requested by malicious_sharded_shuffle, evaluated as a function of the row width for every width 1..=512, equals the number of 32-bit words of the row, ceil(BITS/32) (fewer: the last word is covered by no key and can be altered undetected; more: out-of-bounds column)")
+    b = malsec.async_body(facts, "protocol::ipa_prf::shuffle::malicious::malicious_sharded_shuffle")
+    if b is None:
+        ctx.missing("KEYS-cover", "malicious_sharded_shuffle")
+        return
+    ctx.count(bodies=1)
+    cs = [(bb, t) for bb, t in b.calls() if (F.callee(t)[0] or "").endswith("shuffle::malicious::setup_keys")]
+    if len(cs) != 1:
+        ctx.missing("KEYS-cover", "single setup_keys call")
+        return
+    e = flow.expr_of(b, cs[0][1]["args"][1], max_depth=40)
+    bad = None
+    try:
+        fails = [(bits, ieval(e, bits)) for bits in range(1, 513) if ieval(e, bits) != -(-bits // 32)]
+        if fails:
+            # report a realistic width first (112-bit rows exist in the code base), else the smallest failing one
+            bad = next((f for f in fails if f[0] == 112), fails[0])
+        ok = bad is None
+        why = "amount_of_keys = ceil(BITS / 32) for every row width" if ok else f"for a row of {bad[0]} bits {bad[1]} keys are requested but the row has {-(-bad[0] // 32)} 32-bit words: the trailing bits of such rows are not covered by the MAC (tampering with them is not detected)"
+    except NoEval as u:
+        ok, why = False, f"cannot evaluate the key-count expression ({u})"
+    ctx.ob("KEYS-cover", "amount_of_keys", ok, why, site_of(b, cs[0][0]))
+    # the same key vector reaches tagging and verification
+    uses = {}
+    for bb, t in b.calls():
+        fn = (F.callee(t)[0] or "").split("::")[-1]
+        if fn in ("compute_and_add_tags", "verify_shuffle"):
+            for a in t["args"]:
+                if "setup_keys" in str(flow.expr_of(b, a, max_depth=40)):
+                    uses[fn] = True
+    oku = uses.get("compute_and_add_tags") and uses.get("verify_shuffle")
+    ctx.ob("KEYS-cover", "same-keys-for-tag-and-verify", bool(oku), "the keys from setup_keys are used both to tag and to verify" if oku else "tagging and verification do not both use the keys from setup_keys", site_of(b))
